@@ -179,6 +179,25 @@ Section WalProofs.
     apply H. repeat split; auto.
   Qed.
 
+  (* A header whose length and checksum fields are zero is a well-formed (empty) entry whenever
+     the checksum of the empty string is 0 (true of CRC-32) - in particular sixteen zero bytes.
+     A zero-filled region at an entry boundary is therefore read as entries that were never
+     appended (finding C14-wal-zero-header-is-an-entry). *)
+  Lemma decode_empty_header : forall ts rest, ts < U64 -> crc [] = 0 ->
+    decode_entry (entry_header 0 ts 0 ++ rest) = Ok (Some (Entry ts [] 0, 16)).
+  Proof.
+    intros ts rest Hts H0. unfold U64 in Hts. unfold entry_header. rewrite <- !app_assoc.
+    rewrite decode_framed by (now rewrite lenN_le_enc).
+    change (le_dec (le_enc 4 0)) with 0. rewrite le_dec_enc_u64 by lia.
+    replace (lenN rest <? 0) with false by (symmetry; apply N.ltb_ge; lia).
+    rewrite takeN_0, H0. reflexivity.
+  Qed.
+  Lemma decode_zero_header : forall rest, crc [] = 0 ->
+    decode_entry (repeat 0 16 ++ rest) = Ok (Some (Entry 0 [] 0, 16)).
+  Proof.
+    intros rest H0. apply (decode_empty_header 0 rest); auto. reflexivity.
+  Qed.
+
   (* every strict prefix of an encoded entry is "truncated": no CRC involved *)
   Lemma decode_truncated : forall e (k : nat), lenN (e_data e) < U32 ->
     (k < length (encode_entry e))%nat -> decode_entry (firstn k (encode_entry e)) = Ok None.
@@ -1048,3 +1067,8 @@ Qed.
 
 Lemma wf_example : Forall (wf_entry crc32) [mk_entry crc32 9 [1; 2; 3]; mk_entry crc32 4 []; mk_entry crc32 7 [255]].
 Proof. repeat constructor; vm_compute; reflexivity. Qed.
+
+(* zero-filled tail after a header-only file: two entries that were never appended *)
+Lemma zero_tail_witness :
+  wal_read crc32 (file_image 1 [] ++ repeat 0 32) = Ok (1, [Entry 0 [] 0; Entry 0 [] 0]).
+Proof. vm_compute. reflexivity. Qed.
